@@ -9,24 +9,30 @@
 (*                                                                           *)
 (* Families (constant Fam):                                                  *)
 (*   "rules"  every rule list of length <= MaxRules over the alphabet below  *)
-(*            x the fixed inputs Inputs[InputSel]                            *)
+(*            (Alpha = "full": 30 symbols, "core": 10) x the fixed input     *)
+(*            inputs Inputs[i], i in InputSel                                *)
 (*   "inputs" every input (files <= MaxFiles, values per file <= MaxVals,    *)
 (*            nsel in NSel, root shapes ShapeSet) x the fixed rule lists     *)
 (*   "sim"    both built freely, arrays grown up to MaxArr (for -simulate)   *)
 EXTENDS JqDriver
 
-CONSTANTS Fam, MaxRules, MaxFiles, MaxVals, MaxArr, InputSel, NSel
+CONSTANTS Fam, Alpha, MaxRules, MaxFiles, MaxVals, MaxArr, InputSel, NSel
 
 VARIABLES nsel, cstage      \* number of selectors; "rules" | "input": what the configuration phase may still add
 vars == <<dvars, nsel, cstage>>
 
 \* ---- rules
 R(k, p, b) == [kind |-> k, haspat |-> p # "none", pat |-> p, body |-> b]
-Alphabet ==
+CoreAlphabet ==
+  {R("B", "none", "print"), R("BF", "none", "print"), R("EF", "none", "print"), R("E", "none", "print"),
+   R("P", "none", "print"), R("P", "self", "next"), R("P", "memb", "print"), R("P", "T", "exit"),
+   R("P", "F", "print"), R("P", "self", "bare")}
+FullAlphabet ==
   {R("B", "none", b) : b \in {"print", "exit"}} \cup
   {R(k, "none", b) : k \in {"BF", "EF", "E"}, b \in {"print", "exit", "bare"}} \cup
   {R("P", p, b) : p \in {"none", "T", "F", "self", "memb"}, b \in {"print", "next", "exit"}} \cup
   {R("P", p, "bare") : p \in {"T", "F", "self", "memb"}}
+Alphabet == IF Alpha = "core" THEN CoreAlphabet ELSE FullAlphabet
 
 \* a rule without a body cannot be written directly before a pattern rule without a pattern
 CanFollow(rs, r) == (Len(rs) > 0 /\ rs[Len(rs)].body = "bare") => ~(r.kind = "P" /\ r.pat = "none")
@@ -53,7 +59,8 @@ Inputs == <<
                            << <<S("nul"), A(<<"n1">>)>> >> >>],
   [nsel |-> 1, files |-> << << <<S("o1")>> >>, << <<A(<<"n0", "n1", "ar">>)>>, <<A(<<>>)>> >> >>],
   [nsel |-> 0, files |-> <<>>],
-  [nsel |-> 1, files |-> << <<>>, << <<S("n0")>> >> >>]
+  [nsel |-> 1, files |-> << <<>>, << <<S("n0")>> >> >>],
+  [nsel |-> 1, files |-> << << <<A(<<"n1", "o0", "s0">>)>>, <<A(<<>>)>> >>, << <<A(<<"o1">>)>> >> >>]   \* arrays only: $index is printed
 >>
 
 RuleLists == {
@@ -75,30 +82,34 @@ Values(ns) == [1..(IF ns = 0 THEN 1 ELSE ns) -> ShapeSet]
 Init ==
   /\ Idle
   /\ cstage = "rules"
-  /\ IF Fam = "rules" THEN nsel = Inputs[InputSel].nsel ELSE nsel \in NSel
+  /\ IF Fam = "rules" THEN nsel = 0 ELSE nsel \in NSel
 
 SetCfg(rs, fs, st) ==
   /\ rules' = rs /\ files' = fs /\ cstage' = st
-  /\ UNCHANGED <<part, phase, level, fi, vi, si, ei, ri, tested, signal, dollar, index, file, obs, outcome, nsel>>
+  /\ UNCHANGED <<part, phase, level, fi, vi, si, ei, ri, tested, signal, dollar, index, file, obs, outcome>>
 
 AddRule ==
   /\ phase = "config" /\ cstage = "rules" /\ Fam \in {"rules", "sim"} /\ Len(rules) < MaxRules
   /\ \E r \in Alphabet : CanFollow(rules, r) /\ SetCfg(Append(rules, r), files, "rules")
+  /\ UNCHANGED nsel
 PickRules ==
   /\ phase = "config" /\ cstage = "rules" /\ Fam = "inputs" /\ rules = <<>>
   /\ \E rs \in RuleLists : SetCfg(rs, files, "input")
+  /\ UNCHANGED nsel
 PickInput ==
   /\ phase = "config" /\ Fam = "rules" /\ files = <<>> /\ cstage = "rules"
-  /\ SetCfg(rules, Inputs[InputSel].files, "input")
+  /\ \E i \in InputSel : SetCfg(rules, Inputs[i].files, "input") /\ nsel' = Inputs[i].nsel
 AddFile ==
   /\ phase = "config" /\ Fam \in {"inputs", "sim"} /\ Len(files) < MaxFiles
   /\ (Fam = "inputs") => cstage = "input"
   /\ SetCfg(rules, Append(files, <<>>), "input")
+  /\ UNCHANGED nsel
 AddValue ==
   /\ phase = "config" /\ cstage = "input" /\ Fam \in {"inputs", "sim"}
   /\ Len(files) > 0 /\ Len(files[Len(files)]) < MaxVals
   /\ \E val \in Values(nsel) :
         SetCfg(rules, [files EXCEPT ![Len(files)] = Append(@, val)], "input")
+  /\ UNCHANGED nsel
 AddElem ==
   /\ phase = "config" /\ cstage = "input" /\ Fam = "sim"
   /\ Len(files) > 0 /\ Len(files[Len(files)]) > 0
@@ -106,6 +117,7 @@ AddElem ==
      \E s \in 1..Len(files[f][v]) : \E k \in ElemKinds :
         /\ files[f][v][s].a /\ files[f][v][s].n < MaxArr
         /\ SetCfg(rules, [files EXCEPT ![f][v][s] = A(Append(@.es, k))], "input")
+  /\ UNCHANGED nsel
 Start ==
   /\ phase = "config"
   /\ (Fam = "inputs") => rules # <<>>
@@ -126,7 +138,9 @@ Run ==
   \/ phase = "files" /\ level = "rule" /\ ~tested /\ ri <= N("P") /\ TestPattern(Truth(CurRule.pat, CurElemKind))
   \/ phase = "files" /\ level = "rule" /\ tested /\ RunBody(SigOf(CurRule))
 
-Terminated == phase = "done" /\ UNCHANGED vars
+\* the end of a run is a legitimate end of the behaviour; every other state without a successor is a deadlock
+\* of the model (-simulate: behaviours simply end there, deadlock checking is off)
+Terminated == Fam # "sim" /\ phase = "done" /\ UNCHANGED vars
 
 Next ==
   \/ (AddRule \/ PickRules \/ PickInput \/ AddFile \/ AddValue \/ AddElem \/ Start)
